@@ -55,15 +55,6 @@ def _derives_from_cells(expr, fn):
     return _derives_from_map(expr, fn, 'cells')
 
 
-def _no_formula_test(test):
-    """`X.formula is None` / `X.formula.evaluate is False` somewhere in the test."""
-    for c in ast.walk(test):
-        if isinstance(c, ast.Compare) and isinstance(c.ops[0], ast.Is):
-            if any(isinstance(x, ast.Attribute) and x.attr == 'formula' for x in ast.walk(c.left)):
-                return True
-    return False
-
-
 def rule_1(ctx):
     n = 0
     for m, qual, fn in evalcore.core_functions(ctx):
@@ -234,21 +225,6 @@ def rule_3(ctx):
                             ctx.bad(node, 'discarded argument tuple after storing a class',
                                     'an expression statement holds the constructor arguments that were meant for the class stored above')
     ctx.floor(5, 'stores into a cells map')
-
-
-def _name_indirection(ctx, fn):
-    """The `if address in self.defined_names: ... address = <defn>.address` prologue."""
-    p = func_params(fn)
-    addr = p[1] if len(p) > 1 else None
-    for n in fn.body:
-        if isinstance(n, ast.If) and any(isinstance(c, ast.Compare) and isinstance(c.ops[0], ast.In)
-                                         and isinstance(c.comparators[0], ast.Attribute) and c.comparators[0].attr == 'defined_names'
-                                         for c in ast.walk(n.test)):
-            for a in ast.walk(n):
-                if isinstance(a, ast.Assign) and any(isinstance(t, ast.Name) and t.id == addr for t in a.targets) \
-                        and isinstance(a.value, ast.Attribute) and a.value.attr == 'address':
-                    return n
-    return None
 
 
 def rule_4(ctx):
